@@ -560,9 +560,93 @@ func genHeld(idx int, seed int64, persistence string, variant int, thorough bool
 	return s
 }
 
+// genBusy builds the directed scenario "writer busy while the reader works,
+// should_watch_file_changes on": a large file is being read (small read
+// buffer, so one reading round lasts long) while single lines are appended
+// every few milliseconds (one write notification each); the process is
+// killed at the instant the offsets file on disk holds an offset that is no
+// line end of the file (or after a bounded wait).
+func genBusy(idx int, seed int64, persistence string, thorough bool) *Scenario {
+	g := newGen(idx, seed, "busy")
+	s := g.s
+	r := g.r
+	s.Cfg = genConfig(r, thorough)
+	s.Cfg.Persistence = persistence
+	s.Cfg.AsyncMs = 20
+	s.Cfg.Chain = "none"
+	s.Cfg.WatchChanges = true
+	s.Cfg.ReadBuf = pick(r, 64, 100, 128)
+	s.Cfg.Workers = 1 + r.Intn(2)
+	s.Cfg.FlushMs = 50
+	g.initFiles(1, func() int { return 1 + r.Intn(2) })
+	g.feature("busy-writer-with-watch")
+	g.appendOp(0, 200+r.Intn(600))
+	g.add(Op{Kind: "START1"})
+	g.sleepOp(30)
+	n := 150 + r.Intn(250)
+	lines := g.burst(0, n)
+	g.add(Op{Kind: "BUSY", File: 0, Lines: lines, Ms: r.Intn(3)})
+	s.Kill = KillPlan{Mode: "anomaly", DelayMs: 1200}
+	g.add(Op{Kind: "KILL"})
+	g.appendOp(0, 1+r.Intn(10))
+	g.add(Op{Kind: "START2"})
+	g.finish()
+	g.add(Op{Kind: "END"})
+	return s
+}
+
+// genStale builds the directed scenario "write notification handled late":
+// should_watch_file_changes on; the watcher goroutine is held for a while
+// between its Lstat of the file and the truncation check (sleep armed at the
+// hook point file.watcher.afterStat - on a loaded machine the scheduler does
+// the same, see NOTES.md), the file keeps growing and a worker is in the
+// middle of a long reading round when the check finally compares the current
+// read position with the old size. No file is ever truncated. The process is
+// killed shortly after the offsets file on disk holds an offset that is no
+// line end of the file.
+func genStale(idx int, seed int64, thorough bool) *Scenario {
+	g := newGen(idx, seed, "stale")
+	s := g.s
+	r := g.r
+	s.Cfg = genConfig(r, thorough)
+	s.Cfg.Persistence = "sync" // every commit is followed by a save + fsync: long reading rounds
+	s.Cfg.Chain = "none"
+	s.Cfg.WatchChanges = true
+	s.Cfg.Workers = 1 + r.Intn(2)
+	s.Cfg.Capacity = pick(r, 8, 16, 32)
+	s.Cfg.BatchSize = 1 + r.Intn(4)
+	s.Cfg.FlushMs = 50
+	s.Cfg.TickMs = 100
+	if s.Cfg.GOMAXPROCS < 2 {
+		s.Cfg.GOMAXPROCS = 2
+	}
+	g.initFiles(1, func() int { return 1 + r.Intn(2) })
+	g.feature("write-notification-handled-late")
+	g.appendOp(0, 3+r.Intn(10))
+	g.add(Op{Kind: "START1"})
+	g.add(Op{Kind: "WAITIDLE"})
+	g.appendOp(0, 2+r.Intn(5)) // A: its notification takes the old size, then waits
+	g.add(Op{Kind: "sleep", Ms: 10 + r.Intn(20)})
+	g.appendOp(0, 5+r.Intn(10)) // B
+	g.add(Op{Kind: "sleep", Ms: 20 + r.Intn(30)})
+	g.appendOp(0, 500+r.Intn(300)) // C: a long reading round
+	s.Kill = KillPlan{Mode: "anomaly", DelayMs: 5000, Nth: 40 + r.Intn(80), Sleeps: "file.watcher.afterStat=sleep:400000:1.0"}
+	g.add(Op{Kind: "KILL"})
+	g.appendOp(0, 1+r.Intn(5))
+	g.add(Op{Kind: "START2"})
+	g.finish()
+	g.add(Op{Kind: "END"})
+	return s
+}
+
 // genTrunc builds a truncation scenario (no kill): content A, truncation,
 // shorter content B (below the old read offset), then content C growing past
-// the old size.
+// the old size. Families:
+//
+//	idle      truncation after file.d went idle on A; 1-2 streams
+//	inflight1 truncation while the events of A wait in the output batcher; one stream
+//	inflight2 the same with two streams in the file, A ending with a single
+//	          line of the second stream and B written to the first stream
 func genTrunc(idx int, seed int64, watch bool, mode, tail string, thorough bool) *Scenario {
 	g := newGen(idx, seed, "trunc")
 	s := g.s
@@ -572,21 +656,34 @@ func genTrunc(idx int, seed int64, watch bool, mode, tail string, thorough bool)
 	s.Cfg.WatchChanges = watch
 	s.TruncMode, s.TruncTail = mode, tail
 	s.Kill = KillPlan{Mode: "none"}
-	if mode == "inflight" {
+	if mode != "idle" {
 		// events of A stay in the output batcher while the truncation is detected
 		s.Cfg.Capacity = 64
 		s.Cfg.BatchSize = 32
-		s.Cfg.FlushMs = 1500
-		s.Cfg.Persistence = pick(r, "async", "sync")
+		s.Cfg.FlushMs = 2000
 	}
-	g.initFiles(1, func() int { return 1 + r.Intn(2) })
+	switch mode {
+	case "idle":
+		g.initFiles(1, func() int { return 1 + r.Intn(2) })
+	case "inflight1":
+		g.initFiles(1, func() int { return 1 })
+	default:
+		g.initFiles(1, func() int { return 2 })
+	}
 	g.feature("trunc-" + mode)
 	g.feature("tail-" + tail)
+	streams := g.fileStream[0]
 
 	nA := 6 + r.Intn(10)
 	var A []int
 	for i := 0; i < nA; i++ {
-		st := g.fileStream[0][r.Intn(len(g.fileStream[0]))]
+		st := streams[r.Intn(len(streams))]
+		if mode == "inflight2" {
+			st = streams[0]
+			if i == nA-1 {
+				st = streams[1]
+			}
+		}
 		A = append(A, g.newLine(0, st, "plain"))
 	}
 	switch tail {
@@ -616,12 +713,15 @@ func genTrunc(idx int, seed int64, watch bool, mode, tail string, thorough bool)
 			s.Lines[A[i]].Expect = false // README caveat: data written just before a truncation may be missed
 		}
 	}
-	g.add(Op{Kind: "TRUNC", File: 0, Ms: pick(r, 0, 0, 10, 150)})
+	g.add(Op{Kind: "TRUNC", File: 0, Ms: pick(r, 0, 0, 10, 100)})
 	// B: strictly shorter than A (size is enforced at run time as well)
 	nB := 1 + r.Intn(3)
 	var B []int
 	for i := 0; i < nB; i++ {
-		st := g.fileStream[0][r.Intn(len(g.fileStream[0]))]
+		st := streams[r.Intn(len(streams))]
+		if mode == "inflight2" {
+			st = streams[0]
+		}
 		g.seq++
 		id := fmt.Sprintf("@%s-%06d@", s.Tag, g.seq)
 		l := Line{ID: id, File: 0, Stream: st, Kind: "plain", Expect: true, Phys: -1}
@@ -639,7 +739,7 @@ func genTrunc(idx int, seed int64, watch bool, mode, tail string, thorough bool)
 	var C []int
 	nC := nA + 4 + r.Intn(10)
 	for i := 0; i < nC; i++ {
-		st := g.fileStream[0][r.Intn(len(g.fileStream[0]))]
+		st := streams[r.Intn(len(streams))]
 		C = append(C, g.newLine(0, st, "plain"))
 	}
 	g.add(Op{Kind: "append", File: 0, Lines: C, Chunks: 1 + r.Intn(2)})
